@@ -4,6 +4,8 @@
   `topX : Sess → List String → Option (Sess × String)`; add them to the lists below.
 -/
 import Honeycomb.Model.Session
+import Honeycomb.Model.SessionGrid
+import Honeycomb.Model.Session3
 
 namespace HC
 
@@ -15,8 +17,8 @@ def firstSome {α β γ : Type} (fs : List (α → β → Option γ)) (a : α) (
     | none => firstSome rest a b
 
 def allHooks : Hooks where
-  txOp := firstSome []
-  top := firstSome []
+  txOp := firstSome [txOp3]
+  top := firstSome [top3, topGrid]
 
 def stepAll (s : Sess) (line : String) : Sess × String := step allHooks s line
 
